@@ -309,3 +309,22 @@ claim("C06",
       "It does not decide cryptographic soundness, what executors do with the sender's authority, nor signature canonical form (reported under C04.5, D6).",
       "go/types + go/ssa of x/tools v0.29.0, default build configuration; the frozen rule table in lint/internal/rules/c06.go (verification family, executor list, permitted "
       "callers of SetSingers incl. the journal's redoSigner/undoSigner); constants SignerWeightThreshold / MaxSignersNumber matched by value")
+
+# clauses added after the independent seeded changes (DESIGN §8); appended to the level text
+EXTRA = {
+ "C01": " Also: block gas is accounted identically by miner and validator (closed callers of the gas pool, filled once from header.GasLimit), and the change-journal clauses of C07 are evaluated here as well (independence from discarded candidates needs an exact revert).",
+ "C02": " Also: after a restart the replay guard is refilled over the window measured from the stable block's time (not the wall clock).",
+ "C03": " Also: every advance of the stable root prunes from the root that was stable immediately before that step.",
+ "C07": " Also: undo/redo write only through the accessor setters of their journalling sibling, and copy-in setters re-initialise their destination before copying.",
+ "C09": " Also: a node made to carry an existing node's account keeps that node's dye.",
+ "C10": " Also: the list ranked at start-up is built only from candidates whose stored isCandidate flag is true.",
+ "C11": " Also: the balance a vote transaction weighs is read before the transaction's gas purchase.",
+ "C13": " Also: miner and verifier read the deputy set of parent height + 1 for round length and rotation and consult the parent's miner only outside the height-1 / first-block-of-term case (input agreement, not arithmetic).",
+ "C14": " Also: no fast path to success around the fetch the canonical test inspects; custom decoders fill no field from a sibling field.",
+ "C15": " Also (C15.8): every sub transaction of a decoded box is non-nil when GetBox succeeds and every reader gets its box from GetBox; results of network functions with a `return nil` path are nil-tested by every caller before use.",
+ "C16": " Also (C16.7): SetCallCode's hash identifies the installed code (key of the jump-destination cache).",
+ "C18": " Also: DelTxs on a fork switch receives the unfiltered new-fork list.",
+}
+for _pid, _t in EXTRA.items():
+    if _pid in CLAIMED:
+        CLAIMED[_pid]['text'] += _t
